@@ -17,6 +17,12 @@ func c14gen(c *hx.Ctx, i int) (*c14case, func(r *c14run, k int) *c14op) {
 	if i%40 == 26 {
 		flavour = "flood"
 	}
+	if i%100 == 57 {
+		flavour = "limit-addr"
+	}
+	if i%250 == 113 {
+		flavour = "limit-global"
+	}
 	c.Hit("flavour:" + flavour)
 	cs := &c14case{NS: 2 + rng.Intn(4)}
 	if rng.Intn(2) == 0 {
@@ -99,6 +105,53 @@ func c14gen(c *hx.Ctx, i int) (*c14case, func(r *c14run, k int) *c14op) {
 			script = append(script, c14op{K: "build"})
 		}
 		nOps = len(script) + 4 + rng.Intn(12)
+	}
+	if flavour == "limit-addr" || flavour == "limit-global" {
+		// the DEFAULT limits (32 per address and queue, 256 pending senders): submissions that pass checkLimits and
+		// validation but are refused by put (non-executable queue of the sender full / no pending slot left while the
+		// executable queue is not full), with their neighbours exactly at the limit
+		send := func(s int, n uint32, e uint16) c14op {
+			return c14op{K: "ext", To: "b", Mp: rng.Intn(9) == 0, Tx: &c14tx{S: s, N: n, E: e, Ty: types.SendTx, Fee: 10, Amt: 1}}
+		}
+		cs.Cfg = c14cfg{ES: 1024, QS: 256, AEL: 32, AQL: 32, RIC: cs.Cfg.RIC}
+		cs.Ceremony, cs.Net = 0, 0
+		cs.NS = 3
+		if flavour == "limit-global" {
+			cs.NS = 259
+		}
+		cs.Cand, cs.Bal = nil, nil
+		for s := 0; s < cs.NS; s++ {
+			cs.Cand = append(cs.Cand, false)
+			cs.Bal = append(cs.Bal, 100000)
+		}
+		if flavour == "limit-addr" {
+			for _, j := range rng.Perm(32) { // nonces 2..33 out of order: the pending queue of sender 1 fills up
+				script = append(script, send(1, uint32(2+j), 0))
+			}
+			script = append(script, send(1, 34, 0)) // refused by put
+			if rng.Intn(2) == 0 {
+				script = append(script, send(1, 1, 1)) // next epoch: same queue, refused by put
+			}
+			script = append(script, c14op{K: "int", Tx: &c14tx{S: 1, N: 35, Ty: types.SendTx, Fee: 10, Amt: 1}}) // refused by put
+			script = append(script, send(1, 1, 0), c14op{K: "build"})                                            // executable, accepted
+			for n := uint32(1); n <= 32; n++ {                                                                   // sender 2 fills its executable queue exactly
+				script = append(script, send(2, n, 0))
+			}
+			script = append(script, send(2, 33, 0), c14op{K: "build"}) // executable queue full: goes to pending
+			script = append(script, c14op{K: "mine", Dt: 20})          // promotion up to the executable limit
+			script = append(script, send(1, 34, 0), send(1, 36, 0), c14op{K: "build"})
+			nOps = len(script) + rng.Intn(6)
+		} else {
+			for s := 1; s <= 256; s++ { // 256 senders take the 256 pending slots
+				script = append(script, send(s, 2, 0))
+			}
+			script = append(script, send(257, 2, 0)) // no slot left: refused by put
+			script = append(script, send(257, 1, 0)) // executable: accepted
+			script = append(script, send(257, 3, 0)) // not sequential -> pending -> no slot: refused by put
+			script = append(script, send(1+rng.Intn(256), 3, 0), c14op{K: "build"})
+			script = append(script, send(258, 1, 1)) // next epoch -> pending -> no slot: refused by put
+			nOps = len(script)
+		}
 	}
 	if flavour == "flood" {
 		cs.NS = 3
